@@ -187,7 +187,7 @@ def xref_offsets_are_instruction_offsets(U, chunk):
         U.ensures("analysis does not raise", False, exc=repr(o.exc), **g)
         return
     dx, vms, index, prog = o.value
-    offs = {("LA;", "m1"): {0, 4}, ("LB;", "m1"): {8, 12, 16}}
+    offs = {("LA;", "m1"): {0, 4}, ("LB;", "m1"): {8, 12, 16, 20}}
     v = XS.view(dx)
     bad = []
     for mk, d in v["methods"].items():
